@@ -323,7 +323,8 @@ pub fn call_sequences(alphabet: &[String], depth: usize) -> Vec<Vec<String>> {
 pub fn de_alphabet(rem: u64) -> Vec<String> {
     let mut ks: Vec<u64> = vec![0, 1, 2, rem.saturating_sub(1), rem, rem + 1, MAXU];
     ks.sort(); ks.dedup();
-    let mut a: Vec<String> = vec!["n".to_string(), "b".to_string(), "l".to_string()];
+    // n next, b next_back, l len, and observations on a clone: c count(), L last(), h size_hint()
+    let mut a: Vec<String> = vec!["n".to_string(), "b".to_string(), "l".to_string(), "c".to_string(), "L".to_string(), "h".to_string()];
     for k in &ks { a.push(format!("N{}", k)); }
     for k in &ks { a.push(format!("B{}", k)); }
     a
@@ -332,7 +333,7 @@ pub fn de_alphabet(rem: u64) -> Vec<String> {
 pub fn fwd_alphabet(rem: u64) -> Vec<String> {
     let mut ks: Vec<u64> = vec![0, 1, 2, rem.saturating_sub(1), rem, rem + 1, MAXU];
     ks.sort(); ks.dedup();
-    let mut a: Vec<String> = vec!["n".to_string(), "l".to_string()];
+    let mut a: Vec<String> = vec!["n".to_string(), "l".to_string(), "c".to_string(), "L".to_string(), "h".to_string()];
     for k in &ks { a.push(format!("N{}", k)); }
     a
 }
